@@ -1,3 +1,3 @@
 From Coq Require Extraction ExtrOcamlBasic ExtrOcamlString.
-From MechV Require Import Model.Bytecode.
+From MechV Require Import Model.BytecodeLinkJ.
 Extraction "ocaml/C06/model.ml" run_line.
